@@ -210,6 +210,19 @@ def check(ctx):
     from ._claims import check_claims
 
     check_claims(ctx)
+    # ---------------- merge_asof partition pairing: the upper bound of the right-hand range
+    mu = model.module("dask/dataframe/multi.py")
+    pp = mu.func("pair_partitions")
+    up = find("upper = M_v", pp)
+    ok = len(up) == 1 and unparse(up[0][1]["M_v"]) == "R[j + 1] if j + 1 < m and (R[j + 1] < L[i + 1] or (R[j + 1] == L[i + 1] and i == n - 1)) else None"
+    ctx.ob("ALG.asof-pairing.upper", pp, "upper = R[j+1] when it lies below the left partition's end, or AT it for the last left partition (whose end is inclusive)", ok, "" if ok else "the inclusive end of the last left partition is not honoured: rows at that key are emitted for two right partitions")
+    lo = find("lower = R[j] if j >= 0 and R[j] > L[i] else None", pp)
+    ctx.ob("ALG.asof-pairing.lower", pp, "lower = R[j] when it lies strictly above the left partition's start", len(lo) == 1)
+    # ---------------- broadcast join hash split: rows are hashed on the key columns in the order of `on`
+    sp = mu.func("_split_partition")
+    hs = [c for c in calls(sp, "hash_object_dispatch")]
+    ok = len(hs) >= 2 and all(unparse(c.args[0]).startswith("df[on]") for c in hs[:2]) and bool(find("o = df[on]", sp))
+    ctx.ob("SIB.split-partition.key-order", sp, "_split_partition hashes df[on] (columns in the order the join lists them), like the shuffle of the broadcast side", ok, "" if ok else "columns are taken in frame order: for on=['b','a'] the two sides hash different column orders and matching rows land in different splits")
 
 
 VARIANTS = [
